@@ -46,6 +46,7 @@ St0 == [p |-> Proc0,
         seen |-> {},             \* <<t, it>> started anywhere
         order |-> <<>>,          \* the same pairs in start order
         where |-> {},            \* <<layer, pidx>> : a test of layer ran in pidx
+        childLayers |-> {},      \* layers handed to a subprocess
         procBad |-> FALSE,       \* a finished test of this process was bad
         procSUFail |-> FALSE,    \* a layer setUp raised in this process
         suFailed |-> {}, tdFailed |-> {}, notimpl |-> {},
@@ -91,6 +92,7 @@ FinishCur(w, s) ==
 Step(w, o, s, e) ==
   CASE e.e = "PS" ->
          [s EXCEPT !.p = Proc0, !.pidx = s.procs + 1, !.procs = s.procs + 1,
+                   !.childLayers = IF e.s = "child" THEN @ \cup {e.l} ELSE @,
                    !.role = e.s, !.resume = e.l, !.cur = "", !.curIt = 0,
                    !.procBad = FALSE, !.procSUFail = FALSE]
     [] e.e = "SUB" ->
@@ -245,8 +247,10 @@ TotalsErr(w, o, s, r) ==
       sk == KindSum(w, s.seen, SkipKinds) + nd * o.repeat
       \* the part of sk that arose in the parent process itself
       ParentL == {l \in RunL : <<l, 1>> \in s.where \/ (\A x \in s.where : x[1] # l)}
+      \* (a layer all of whose tests are decorator skips leaves no test event:
+      \* it ran in the parent unless it was handed to a subprocess)
       ndP == SumOver(LAMBDA l : Cardinality(DecoSkips(w, o, l)),
-                     {l \in RunL : <<l, 1>> \in s.where})
+                     {l \in RunL : l \notin s.childLayers})
       skParent == KindSum(w, {x \in s.seen : <<LayerOf(w, x[1]), 1>> \in s.where}, SkipKinds)
                   + ndP * o.repeat
   IN IF r.total[2] # f THEN "C12:total-failures"
@@ -372,7 +376,9 @@ Final(w, o, s, r) ==
              ELSE IF Unit \in RunLayers /\ r.layers[1] # Unit THEN "C10:unit-layer-not-first"
              ELSE ""
       c02b == IF o.list THEN ""
+              \* (a peer fooled by a header look-alike reports that known finding itself)
               ELSE IF \E k \in 1..Len(r.peers) : PeerOK(r.peers[k]) /\ r.peers[k].failed # r.failed
+                                                   /\ ~(r.peers[k].lookalikes > 0 /\ ~r.peers[k].failed)
                    THEN "C02:modes-verdict-differs" ELSE ""
   IN NoteAllF(s, <<C04(c04), C04(c04b), C03(c03), C03(c03b), C03(c03l), C03(c03m), C01(c01), C02(c02), C02(c02b),
                   C10(c10), C16(c16), C12(c12a), C12(c12b), C12(c12c), C12(c12d)>>)
